@@ -23,6 +23,9 @@ type specScope struct {
 	assumeMode bool
 	// inOld: evaluating inside old(...): parameter names denote the values passed in
 	inOld bool
+	// prevFr / prevSt: in a step clause, the frame and state at the head of the iteration (for prev(...))
+	prevFr *Frame
+	prevSt *State
 }
 
 func (s *specScope) with(name string, v Value) *specScope {
@@ -298,11 +301,11 @@ func (x *Exec) specIdent(sc *specScope, name string, hint types.Type) Value {
 			if v, ok := sc.fr.env[sv]; ok {
 				if a, isAlloc := sv.(*ssa.Alloc); isAlloc {
 					_ = a
-					return x.load(sc.st, x.ptrLoc(v))
+					return x.loadAny(sc.st, x.ptrLoc(v))
 				}
 				if _, isFV := sv.(*ssa.FreeVar); isFV {
 					// a captured variable: the name denotes its current value
-					return x.load(sc.st, x.ptrLoc(v))
+					return x.loadAny(sc.st, x.ptrLoc(v))
 				}
 				return v
 			}
@@ -659,6 +662,14 @@ func (x *Exec) specCall(sc *specScope, n *ECall, hint types.Type) Value {
 		nsc := *sc
 		nsc.st = sc.old
 		nsc.inOld = true
+		return x.evalSpec0(&nsc, n.Args[0], hint)
+	case "prev":
+		if sc.prevFr == nil || sc.prevSt == nil {
+			unsup("spec: prev(...) is only meaningful in a loop step clause")
+		}
+		nsc := *sc
+		nsc.fr, nsc.st = sc.prevFr, sc.prevSt
+		nsc.prevFr, nsc.prevSt = nil, nil
 		return x.evalSpec0(&nsc, n.Args[0], hint)
 	case "len":
 		v := x.evalSpec0(sc, n.Args[0], nil)
